@@ -325,6 +325,15 @@ func (s *Sim) Exec(a *Action) *Step {
 		case "admin_startconfirm":
 			st.Rec = s.W.AdminStartConfirmation(a.PID)
 		}
+	case "admin_enable2fa":
+		// the operator's support tool switches a second factor on for the account (secret / phone handed over
+		// out of band): from now on the account HAS a second factor, whatever its sessions looked like before
+		a.PID = s.resolvePID(a)
+		before := s.W.Store.Snapshot()
+		if a.A >= 0 && a.A < len(s.Accts) {
+			s.SetTwoFA(a.A, a.opt("kind") == "totp", a.opt("kind") == "sms")
+		}
+		st.Rec = &world.Rec{Kind: "local", Browser: a.B, Method: "LOCAL", Target: "admin_enable2fa " + a.opt("kind"), Now: s.W.Now(), Before: before, After: s.W.Store.Snapshot()}
 	case "steal":
 		// copy a remember cookie value into this browser's jar (theft / replay); no request
 		val := s.resolveCookie(a)
